@@ -393,3 +393,64 @@ Definition step_savefail (parse : string -> parse_result) (st : state) (c : call
   | (Ok, st') => (Err ESaveState, st')
   | x => x
   end.
+
+(* ---------------------------------------------------------------- a tagging job in flight *)
+(* startTaggingJobIfNeeded hands a COPY of the tag to updateTagJob; the job evaluates it outside the
+   service loop while API calls go on; its completion closure stores the copy back unless the tag is
+   gone or has another definition, after taking colour, converters and referencedBy from the stored
+   tag (they can change while the job runs).  Matches / Uncertain of the copy are not modelled here:
+   the completed tag keeps the stored matches and is certain. *)
+Definition complete_job (st : state) (nm : name) (snap : tag) : state :=
+  match get (tags st) nm with
+  | Some ot =>
+      if String.eqb (t_def ot) (t_def snap)
+      then with_tags st (set (tags st) nm
+             (mkTag (t_def snap) (t_main snap) (t_sub snap) (t_data snap)
+                    (t_color ot) (t_convs ot) (t_refby ot) (t_matches ot) []))
+      else st
+  | None => st
+  end.
+
+(* seeded change C11-r4c-n1: referencedBy is NOT taken over from the stored tag *)
+Definition complete_job_keep_refby (st : state) (nm : name) (snap : tag) : state :=
+  match get (tags st) nm with
+  | Some ot =>
+      if String.eqb (t_def ot) (t_def snap)
+      then with_tags st (set (tags st) nm
+             (mkTag (t_def snap) (t_main snap) (t_sub snap) (t_data snap)
+                    (t_color ot) (t_convs ot) (t_refby snap) (t_matches ot) []))
+      else st
+  | None => st
+  end.
+
+Record jstate := mkJ { js : state; job : option (name * tag) }.
+Inductive jev :=
+| JCall (c : call)       (* an API call *)
+| JStart (nm : name)     (* a tagging job starts for tag nm (any tag: Go picks one that is ready) *)
+| JDone.                 (* the completion closure of the job in flight runs *)
+
+Definition jstep (parse : string -> parse_result) (s : jstate) (e : jev) : jstate :=
+  match e with
+  | JCall c => mkJ (snd (step parse (js s) c)) (job s)
+  | JStart nm =>
+      match job s, get (tags (js s)) nm with
+      | None, Some t => mkJ (js s) (Some (nm, t))
+      | _, _ => s
+      end
+  | JDone =>
+      match job s with
+      | Some (nm, snap) => mkJ (complete_job (js s) nm snap) None
+      | None => s
+      end
+  end.
+Definition jstep_seeded (parse : string -> parse_result) (s : jstate) (e : jev) : jstate :=
+  match e with
+  | JDone =>
+      match job s with
+      | Some (nm, snap) => mkJ (complete_job_keep_refby (js s) nm snap) None
+      | None => s
+      end
+  | _ => jstep parse s e
+  end.
+Definition jrun (parse : string -> parse_result) (cv : list name) (next : N) (es : list jev) : jstate :=
+  fold_left (jstep parse) es (mkJ (init_state cv next) None).
